@@ -1115,12 +1115,19 @@ class ExprMixin:
                               % (k, e.lineno, cx.fn, key))
         g = e.generators[0]
         var = "_" + key
-        src = "%s = []\nfor _t in _it:\n    %s.append(0)" % (var, var)
+        if kind == "dict":
+            src = "%s = {}\nfor _t in _it:\n    %s[0] = 0" % (var, var)
+        else:
+            src = "%s = []\nfor _t in _it:\n    %s.append(0)" % (var, var)
         body = ast.parse(src).body
         loop = body[1]
         loop.target = g.target
         loop.iter = g.iter
-        loop.body[0].value.args[0] = e.elt
+        if kind == "dict":
+            loop.body[0].targets[0].slice = e.key
+            loop.body[0].value = e.value
+        else:
+            loop.body[0].value.args[0] = e.elt
         loop._pyvc_key = key
         for n in ast.walk(loop):
             if not hasattr(n, "lineno"):
@@ -1132,7 +1139,13 @@ class ExprMixin:
         if hint is None:
             raise Unsupported("loop contract %s needs sorts={'%s': TList(...)}" % (key, var))
         from .ops import lift_list
-        st.env[var] = lift_list(VTuple([], True), hint)
+        if kind == "dict":
+            from .ops import empty_dict
+            if not isinstance(hint, TDict):
+                raise Unsupported("loop contract %s: sorts['%s'] must be a TDict" % (key, var))
+            st.env[var] = empty_dict(hint)
+        else:
+            st.env[var] = lift_list(VTuple([], True), hint)
         outs = []
         for s2, oc in self.exec_stmt(loop, st, cx):
             if oc[0] != "normal":
@@ -1158,6 +1171,9 @@ class ExprMixin:
         result is a fresh list r with len r == len xs and forall i: r[i] == f(xs[i])"""
         if kind != "dict" and len(e.generators) == 1 and e.generators[0].ifs:
             return self.filter_comprehension(e, st, cx, kind)
+        if kind == "dict" and len(e.generators) == 1 and not e.generators[0].ifs and cx.contract is not None and cx.fn_node is not None \
+                and ("comp%s" % _comp_ordinal(cx.fn_node, e)) in cx.contract.loops:
+            return self.comprehension_as_loop(e, st, cx, kind)   # {k: f(x) for ...}: executed as a loop under its loop contract
         if kind == "dict" or len(e.generators) != 1 or e.generators[0].ifs:
             raise Unsupported("comprehension over a symbolic sequence (filter / nested / dict) at line %d" % e.lineno)
         g = e.generators[0]
@@ -1199,7 +1215,7 @@ class ExprMixin:
 
 
 def _comp_ordinal(fn_node, e):
-    cs = [n for n in ast.walk(fn_node) if isinstance(n, (ast.ListComp, ast.GeneratorExp, ast.SetComp))]
+    cs = [n for n in ast.walk(fn_node) if isinstance(n, (ast.ListComp, ast.GeneratorExp, ast.SetComp, ast.DictComp))]
     cs.sort(key=lambda n: (n.lineno, n.col_offset))
     return cs.index(e) + 1 if e in cs else None
 
